@@ -22,6 +22,8 @@ echo "--- without the change"
 cargo test --offline -p "$PKG" --test mutant_demo_$N 2>&1 | tail -5
 cargo test --offline -p "$PKG" --test mutant_demo_$N >/dev/null 2>&1; A=$?
 git apply "$OUT/m$N.diff" || { echo "NOT-CONFIRMED (patch does not apply)"; exit 1; }
+# make sure cargo sees the change (mtime granularity / shared target dir)
+sleep 2; git diff --name-only | xargs -r touch; touch src/lib.rs parser/src/lib.rs value/src/lib.rs derive/src/lib.rs
 echo "--- with the change"
 cargo test --offline -p "$PKG" --test mutant_demo_$N 2>&1 | tail -8
 cargo test --offline -p "$PKG" --test mutant_demo_$N >/dev/null 2>&1; B=$?
